@@ -104,6 +104,21 @@ def generate(rng, tier, focus):
             subs.append(sub(2, ["hot", 0]))
         acts = pre + subs + mid + [["emit", 0, term]] + post
         cases.append((scn(subjects=[kind], handles=3, script_=acts), {"k": "sub-in-terminal", "how": how, "term": term}))
+    # feedback from INSIDE the terminal notification: every subscriber reacts to its terminal callback by pushing into the same subject
+    # (next / error / complete): whoever was subscribed when the subject terminated gets exactly that terminal, and nothing that is
+    # pushed while the notification is still going round (all subscribers react alike: the visiting order is unspecified)
+    for _ in range(1500 if thorough else 250):
+        kind = rng.choice([["subject"], ["subject"], ["replay"], ["async"]])
+        nsub = rng.choice([2, 2, 3])
+        m = rng.randrange(0, 3)
+        term = rng.choice([C, C, e(3)])
+        back = rng.choice([n(7), n(7), e(5), C])
+        tcb = 0 if kind[0] == "async" and term == e(3) else (m if kind[0] != "async" else (1 if m else 0))
+        subs = [sub(u, ["hot", 0], (tcb, ["emit", 0, back])) for u in range(nsub)]
+        acts = subs + [["emit", 0, n(rng.choice([1, 2, 3]))] for _ in range(m)] + [["emit", 0, term]]
+        items = [a[2] for a in acts if a[0] == "emit" and a[2][0] == "n"]
+        want = (items if kind[0] != "async" else (items[-1:] if term == C else [])) + [term]
+        cases.append((scn(subjects=[kind], handles=3, script_=acts), {"k": "emit-in-terminal", "want": [sx.dumps(x) for x in want], "nsub": nsub}))
     # an observer attached through an operator that ENDS the subscription during the hand-over (take / first / take_while /
     # element_at over a subject with a stored history): the subject must not go on holding it
     for _ in range(3000 if thorough else 500):
@@ -135,6 +150,12 @@ def judge_impl(cases, obs):
             if int(counts[0]) != alive:
                 out.append((i, "the subject holds %s observer(s) after the last action, but %d subscription(s) are still alive (flags %s): an observer that ended during the hand-over was kept" % (
                     counts[0], alive, " ".join(str(f) for f in flags))))
+        if info.get("k") == "emit-in-terminal" and ob["out"] == "ok":
+            for u in range(info["nsub"]):
+                got = [sx.dumps(x[2]) for x in ob["log"] if x[0] == "t%d" % u]
+                if got != info["want"]:
+                    out.append((i, "subscriber %d, subscribed from the start, received %s instead of %s: what a subscriber pushes from inside its terminal callback reached another subscriber of the terminated subject (or replaced its terminal)" % (u, " ".join(got), " ".join(info["want"]))))
+                    break
         if info.get("k") != "sub-in-terminal" or ob["out"] != "ok":
             continue
         want = sx.dumps(info["term"])
